@@ -197,7 +197,7 @@ class C03(C20):
                 rows = [tuple(x) for x in tt(r['rows'])]
                 r2 = dict(r, raise_at=(ending['n'] if kind == 'pyraise' else 0))
                 fn = self.make_func(yp, r2, rows, log, counter)
-                yp.register_function(r['name'], fn, **({} if r['style'] == 'inferred' else {'arity': r['arity'] if r['style'] in ('explicit', 'explicit-varargs') else -1}))
+                yp.register_function(r['name'], fn, **({} if r['style'] in ('inferred', 'inferred-wrapped') else {'arity': r['arity'] if r['style'] in ('explicit', 'explicit-varargs') else -1}))
             name, args = impl.goal_parts(q)
             vmap = {}
             eargs = [impl.to_engine(yp, a, vmap) for a in args]
